@@ -298,6 +298,16 @@ def branches (d : Doc2 Json) (excl : List String) : List String :=
     (if docInputsBack d && !docBodyBack d then ["frag.docInputsBack.only"] else [])
   raw.eraseDups
 
+/-- the kinds of value the extension `x-nullable` takes anywhere in the document (only the boolean `true` is nullability) -/
+partial def xnullKinds (j : Json) : List String :=
+  match j with
+  | .obj kvs => kvs.foldl (init := []) (fun acc k v =>
+      acc ++ (if k == "x-nullable" then
+                [match v with | .bool true => "s.xnullable.true" | .bool false => "s.xnullable.false" | _ => "s.xnullable.nonbool"]
+              else []) ++ xnullKinds v)
+  | .arr a => a.toList.flatMap xnullKinds
+  | _ => []
+
 def handle (j : Json) : Json :=
   let d := parseDoc (getD j "doc" Json.null)
   let spec := api2 d
@@ -317,6 +327,6 @@ def handle (j : Json) : Json :=
     ("model", model),
     ("spec", jobj [("toV3", "ok"), ("validates", Json.bool true), ("fromV3", "ok"), ("api", apiJson spec), ("badRefs", jstrs [])]),
     ("excl", jstrs excl),
-    ("branches", jstrs (branches d excl))]
+    ("branches", jstrs (branches d excl ++ (xnullKinds (getD j "doc" Json.null)).eraseDups))]
 
 end KinModel.Drv.C17
